@@ -628,6 +628,7 @@ func (g *FuncGen) analyzeCFG() {
 					g.anchors = map[string]string{}
 				}
 				g.anchors["loops"] = fmt.Sprint(len(ls))
+				g.anchor(fmt.Sprintf("loop %d", li.ordinal), li.minPos) // ... and the text at the chosen loop
 			}
 		}
 	}
